@@ -137,6 +137,31 @@ func c07Req(target string) *envoy.CheckRequest {
 	}}}
 }
 
+// c07ImplAttrs: the same request with the proxy also filling the separate query / fragment attributes of the
+// CheckRequest (the path attribute still holds the full target, as Envoy sends it).
+func c07ImplAttrs(f *server.ExtAuthZFilter, target string) (bool, error) {
+	req := c07Req(target)
+	rest := target
+	if i := strings.IndexAny(rest, "?#"); i >= 0 {
+		rest = rest[i:]
+		if rest[0] == '?' {
+			q := rest[1:]
+			if j := strings.Index(q, "#"); j >= 0 {
+				req.Attributes.Request.Http.Fragment = q[j+1:]
+				q = q[:j]
+			}
+			req.Attributes.Request.Http.Query = q
+		} else {
+			req.Attributes.Request.Http.Fragment = rest[1:]
+		}
+	}
+	resp, err := f.Check(context.Background(), req)
+	if err != nil {
+		return false, err
+	}
+	return codes.Code(resp.GetStatus().GetCode()) != codes.OK, nil
+}
+
 // triggered as observed on the implementation: OK <=> not triggered (single always-deny mock filter).
 func c07Impl(f *server.ExtAuthZFilter, target string) (bool, error) {
 	resp, err := f.Check(context.Background(), c07Req(target))
@@ -243,6 +268,14 @@ func c07CheckSet(r *ev.Run, rules []c07Rule) int {
 			n++
 			want := c07RefTriggered(rules, target)
 			isTail := strings.HasPrefix(tail, "?") || strings.HasPrefix(tail, "#") // otherwise the suffix is part of the path
+			if isTail && len(tail) > 1 {
+				if ga, err := c07ImplAttrs(f, target); err == nil && ga != got {
+					r.Violation("C07 mismatch class=query/fragment-attributes dir=attributes-change-verdict",
+						fmt.Sprintf("rules=%+v target=%q: triggered=%v, but %v when the request also carries the query/fragment attributes", rules, target, got, ga),
+						c07Case{Rules: rules, Path: path, Tail: tail, Expect: want, Got: ga, Base: base})
+				}
+				n++
+			}
 			if got != want || (isTail && got != base) {
 				class := "plain"
 				if strings.HasPrefix(tail, "?") {
@@ -334,8 +367,9 @@ func c07Replay(path string) int {
 	got, err := c07Impl(f, c.Path+c.Tail)
 	base, _ := c07Impl(f, c.Path)
 	want := c07RefTriggered(c.Rules, c.Path+c.Tail)
-	return replayVerdict("C07", err != nil || got != want || got != base,
-		fmt.Sprintf("target=%q expected=%v got=%v without-tail=%v err=%v", c.Path+c.Tail, want, got, base, err))
+	withAttrs, _ := c07ImplAttrs(f, c.Path+c.Tail)
+	return replayVerdict("C07", err != nil || got != want || got != base || withAttrs != got,
+		fmt.Sprintf("target=%q expected=%v got=%v without-tail=%v with-query/fragment-attributes=%v err=%v", c.Path+c.Tail, want, got, base, withAttrs, err))
 }
 
 func init() { Registry["C07"] = Prop{Run: c07Run, Replay: c07Replay} }
